@@ -369,7 +369,16 @@ func (b *TableColumnGroupBox) span() int {
 	if len(b.Children) != 0 {
 		return len(b.Children)
 	}
-	return integerAttribute(utils.HTMLNode(*b.Element).Get("span"), 1)
+	return maxSpan(integerAttribute(utils.HTMLNode(*b.Element).Get("span"), 1))
+}
+
+// maxSpan clamps the span attribute of <col> and <colgroup> to 1000, as required
+// by the HTML specification (the value is used as a number of boxes to create).
+func maxSpan(span int) int {
+	if span > 1000 {
+		return 1000
+	}
+	return span
 }
 
 // Return cells that originate in the group's columns.
@@ -390,7 +399,7 @@ func NewTableColumnBox(style pr.ElementStyle, element *html.Node, pseudoType str
 }
 
 func (b *TableColumnBox) span() int {
-	return integerAttribute(utils.HTMLNode(*b.Element).Get("span"), 1)
+	return maxSpan(integerAttribute(utils.HTMLNode(*b.Element).Get("span"), 1))
 }
 
 // Read an integer attribute from the HTML element.
